@@ -78,6 +78,8 @@ func init() {
 		checkObjListWhole(p, r)
 		checkIndexRoot(p, r)
 		checkLogDeflated(p, r)
+		checkObjCountAgree(p, r)
+		checkObjIndexEveryBlock(p, r)
 		r.Engines = []string{"layout", "dtable", "wireseq", "pathsim", "bounds"}
 		r.Explanation = "Format constants and layouts are extracted from the resolved Go program (constant evaluation, struct sizes and field order, partial evaluation of headerSize/footerSize, SSA patterns for shifts, masks and widths, the struct types handed to encoding/binary, string literals) and compared entry by entry with a frozen table transcribed from the reftable format description; identities between struct sizes and size functions are checked; restart points obey the 16-bit cap and the prefix-length-zero rule; the wire sequence of every ref, log and index record value type written by the encoder equals the sequence the format prescribes, and the key codec uses 3 type bits. A change made symmetrically to writer and reader (which the round-trip tests cannot see) changes the extracted table and is reported."
 		r.NotDecided = []string{"that a particular emitted file parses (needs the arithmetic of C01)", "index and object-index contents", "zero padding lengths"}
